@@ -43,11 +43,29 @@ INTRINSIC_BYTES = [
 
 
 def helper_width(prog, h):
-    """bytes read by a (buf, index) load helper, derived from its own body"""
+    """bytes read from `buf` by a (buf, index) load helper, derived from its own body: only
+    reads whose pointer is derived from the buf parameter count (a helper that copies n
+    elements into a local array and loads the array reads n elements from buf)"""
     total = 0
+    hs = Sym(h)
+    buf = ("param", 1, h.local_name(1))
+
+    def from_buf(op, c):
+        e = hs.operand(op, (c.bb, "term"))
+        return buf in _atoms_of(e)
     for c in h.calls():
         nm = short(c.name)
-        if nm == "read_unaligned":
+        if nm == "copy_nonoverlapping" and len(c.args) == 3 and from_buf(c.args[0], c):
+            n = _strip(hs.operand(c.args[2], (c.bb, "term")))
+            t = c.targs()
+            if n[0] == "const" and t and type_size(t[0]):
+                total = max(total, n[1] * type_size(t[0]))
+            else:
+                return None
+            continue
+        if not c.args or not from_buf(c.args[0], c):
+            continue
+        if nm == "read_unaligned" or nm == "read":
             t = c.targs()
             if t and type_size(t[0]):
                 total = max(total, type_size(t[0]))
@@ -55,6 +73,17 @@ def helper_width(prog, h):
             if re.match(rx, nm):
                 total = max(total, b)
     return total or None      # None: single-element helpers (element size at the call site)
+
+
+def _atoms_of(e, acc=None):
+    acc = set() if acc is None else acc
+    if isinstance(e, tuple) and e:
+        if e[0] in ("param", "local"):
+            acc.add(e)
+        for x in e:
+            if isinstance(x, tuple):
+                _atoms_of(x, acc)
+    return acc
 
 
 def load_sites(prog, fn):
@@ -524,12 +553,12 @@ def guard_adequacy(rep, prog, rule, floor_sites=100):
                                            % slack if slack else ""))
                 else:
                     w = w + off * es
-                    rep.bad(rule, key + "|overread", c.at, "%s reads %d bytes per iteration of a "
-                            "loop that consumes %d coefficients (= %d elements of %d bytes = %d "
-                            "bytes): at the last chunk of a window that ends at the row end it "
-                            "reads %d byte(s) past the row" % (
-                                short(c.name), w, n_chunk, n_chunk, es, n_chunk * es,
-                                w - (n_chunk + slack) * es))
+                    rep.bad(rule, key + "|overread", c.at, "%s reads %d bytes where only %d %s "
+                            "(= %d elements of %d bytes = %d bytes) are known to remain: when "
+                            "the %s ends at the end of the row it reads %d byte(s) past the row"
+                            % (short(c.name), w, n_chunk, what, n_chunk, es, n_chunk * es,
+                               "coefficient window" if kind == "coeff" else "destination row",
+                               w - (n_chunk + slack) * es))
                 continue
             cov += 1
             if es is None or w is None:
